@@ -1,29 +1,18 @@
 import JL.Generated.Fns
-import JL.Lemmas.TieAuto
-import JL.Lemmas.TieB
+import JL.Lemmas.TieLoops
 import JL.Tie.parse_float
 /-! tie: `parse_float_add`, as translated from the crate's current source, is the model's function - for every input -/
 namespace JL.Tie
-open JL
+open JL JL.Lemmas.TieLoops
+set_option linter.unusedSimpArgs false  -- which of the listed facts are used depends on how the source is spelled
 
-/-- one step of the model's fold -/
-def addStep (acc : F64) (v : Json) : Option F64 :=
-  match JsOp.parseFloat v with
-  | some n => some (F64.add acc n)
-  | none => none
-
-theorem parseFloatAdd_eq (items : List Json) : JsOp.parseFloatAdd items = items.foldlM addStep (F64.zero) := rfl
-
-/- Two ways of going over the operands are recognised: a `fold` over the converted operands whose accumulator is a `Result`
-(`TieB.fold_opt_tie`), and a `for` loop that returns at the first failing conversion (`TieAuto.for_opt`). Either way the body
-is arbitrary: that it performs one step of the model's fold is closed by `tie_close`. -/
-theorem parse_float_add (items : List Json) : Gen.parse_float_add items = JsOp.parseFloatAdd items := by
+/- see `abstract_max`: whichever way the accumulation is spelled, `rs_loop_opt` brings it to `List.foldlM addStep` -/
+theorem parse_float_add (vals : List Json) : Gen.parse_float_add vals = JsOp.parseFloatAdd vals := by
+  unfold Gen.parse_float_add
   rw [parseFloatAdd_eq]
-  simp only [Gen.parse_float_add]
-  first
-    | (refine Lemmas.TieB.fold_opt_tie _ _ addStep ?_ ?_ _ _ <;> intros <;>
-        tie_close [addStep, parse_float] splitting JsOp.parseFloat)
-    | (rw [Lemmas.TieAuto.for_opt addStep] <;> intros <;>
-        tie_close [addStep, parse_float] splitting JsOp.parseFloat List.foldlM)
+  rs_loop_opt addStep
+  intro a v
+  simp only [parse_float, addStep]
+  cases JsOp.parseFloat v <;> simp [rs]
 
 end JL.Tie
